@@ -140,6 +140,11 @@ class Facts:
         with open(path) as fh:
             d = json.load(fh)
         self.path = path
+        # bodies of generic constants are not functions: kept aside for the expression DAG (dag.const_expr)
+        self.const_bodies = {f["key"]: f for f in d["fns"] if f["kind"].startswith(("AssocConst", "Const"))}
+        d["fns"] = [f for f in d["fns"] if f["key"] not in self.const_bodies or not f["kind"].startswith(("AssocConst", "Const"))]
+        import dag as _dag
+        _dag.CONST_BODIES = self.const_bodies; _dag._CONST_EXPR.clear()
         import anchors
         self.anchor_notes = anchors.recover(d) if not os.environ.get("RM_NO_ANCHOR_RECOVERY") else []
         if not os.environ.get("RM_NO_ANCHOR_RECOVERY") and not os.environ.get("RM_NO_INLINE"):
